@@ -1,6 +1,7 @@
 package main
 
 import (
+	"encoding/json"
 	"fmt"
 	"os"
 	"path/filepath"
@@ -125,6 +126,9 @@ func (v *Verifier) report(prop, tier string, seed int, reps []*FuncReport, obs, 
 			samples = append(samples, map[string]interface{}{"obligation": o.Name, "kind": o.Kind, "clause": o.Src, "result": o.Status, "solvers": o.Output, "pos": o.Pos})
 		}
 	}
+	// obligations listed as recorded known findings are reported separately (KNOWN-FINDING
+	// lines, known_finding_obligations): the claim covers the remaining obligations
+	nObl -= len(knownHit)
 	level := "proof"
 	if nProved != nObl || nObl == 0 {
 		level = "other"
@@ -136,6 +140,9 @@ func (v *Verifier) report(prop, tier string, seed int, reps []*FuncReport, obs, 
 	}
 	if v.LevelCap != "" && v.LevelCap != "proof" {
 		level = v.LevelCap
+	}
+	if ml := manifestLevel(v.VerifDir, prop); ml != "" && ml != "proof" {
+		level = ml
 	}
 	trusted := []string{
 		"go/packages + go/ssa (x/tools v0.29.0) produce SSA faithful to the compiler for the supported instruction subset",
@@ -166,6 +173,7 @@ func (v *Verifier) report(prop, tier string, seed int, reps []*FuncReport, obs, 
 			"unmodelled_call_sites": unmodelled,
 			"inlined_calls": v.inlineCount,
 			"vacuity_canaries": map[string]interface{}{"checked": len(canaries), "reachable": canaryOK, "vacuous": vacuous},
+			"known_finding_obligations": len(knownHit),
 			"known_findings_hit":   knownHit,
 			"known_findings_not_reproduced": staleKnown,
 			"contract_files": relFiles(v.DB.Files, v.Repo),
@@ -238,4 +246,30 @@ func (v *Verifier) writeReplay(prop string, o *Oblig, scratch string) (string, b
 	}
 	writeJSON(path, rec)
 	return path, found
+}
+
+// manifestLevel: the level claimed for the property in MANIFEST.json (a partial claim
+// is reported at that level even when every generated obligation discharges).
+func manifestLevel(verif, prop string) string {
+	b, err := os.ReadFile(filepath.Join(verif, "MANIFEST.json"))
+	if err != nil {
+		return ""
+	}
+	var m struct {
+		Checks []struct {
+			PropertyID string `json:"property_id"`
+			Level      struct {
+				Category string `json:"category"`
+			} `json:"level_claimed"`
+		} `json:"checks"`
+	}
+	if json.Unmarshal(b, &m) != nil {
+		return ""
+	}
+	for _, c := range m.Checks {
+		if c.PropertyID == prop {
+			return c.Level.Category
+		}
+	}
+	return ""
 }
